@@ -94,8 +94,9 @@ func genClients(ts *sim.Tapes, cfg work.Config, prop, tier string) (prelude *wor
 			n := 1 + t.Intn(2)
 			for i := 0; i < n; i++ {
 				steps = append(steps, work.Step{Kind: "pause", Reader: t.Intn(25)})
-				// Reader encodes the variant: 0 WriteTo, 1 CopyFile, 2 WriteTo with WriteFlag; +10: hold the tx for a while before copying
-				steps = append(steps, work.Step{Kind: "backup", Reader: t.Pick(3, 2, 1) + 10*t.Pick(2, 1)})
+				// Reader encodes the variant: 0 WriteTo, 1 CopyFile, 2 WriteTo with WriteFlag, 3 WriteFlag while the
+				// path has been replaced by another file; +10: hold the tx for a while before copying
+				steps = append(steps, work.Step{Kind: "backup", Reader: t.Pick(3, 2, 1, 1) + 10*t.Pick(2, 1)})
 			}
 			clients = append(clients, steps)
 		}
@@ -150,6 +151,8 @@ type mtWorld struct {
 	used        map[int]map[uint64]bool
 	readersOpen map[int]int
 	newest      int
+	// C14
+	pathReplaced bool
 }
 
 func (m *mtWorld) fail(prop, class, f string, a ...any) {
@@ -659,9 +662,29 @@ func (ss schedsim) backup(m *mtWorld, e *work.Exec, ci, si int, st *work.Step, t
 		img, _ = os.ReadFile(dst)
 		m.probes["backup-copyfile"]++
 	default:
-		if variant == 2 {
+		if variant >= 2 {
 			tx.WriteFlag = os.O_SYNC
 			m.probes["backup-writeflag"]++
+		}
+		if variant == 3 && !m.pathReplaced {
+			// the file at the database's path is replaced by a different file
+			// (same length, other content) while the transaction is open: the
+			// copy must still come from the file the transaction is based on
+			moved := m.db.Path() + ".moved"
+			if fi, serr := os.Stat(m.db.Path()); serr == nil && os.Rename(m.db.Path(), moved) == nil {
+				decoy := make([]byte, fi.Size())
+				for i := range decoy {
+					decoy[i] = 0xD7
+				}
+				_ = os.WriteFile(m.db.Path(), decoy, 0600)
+				m.pathReplaced = true
+				m.probes["backup-path-replaced"]++
+				defer func() {
+					_ = os.Remove(m.db.Path())
+					_ = os.Rename(moved, m.db.Path())
+					m.pathReplaced = false
+				}()
+			}
 		}
 		yw := &yieldWriter{t: t, s: m.s}
 		n, err := tx.WriteTo(yw)
